@@ -801,7 +801,7 @@ func main() {
 		}
 	}
 	// GetTxGroup gate and single-transaction Check
-	for i := 0; i < gen.Scale(150, 2000); i++ {
+	for i := 0; i < gen.Scale(100, 2000); i++ {
 		t := txw.RandTx(r)
 		opGetTxGroup(t)
 		p := txw.PlainTx(r, txw.Execers[r.Intn(len(txw.Execers))], cfg.GetChainID()+int32(r.Intn(2)))
@@ -815,7 +815,7 @@ func main() {
 		opGetTxGroup(p)
 		opCheck1(randEnv(r), p)
 	}
-	for i := 0; i < gen.Scale(20, 300); i++ {
+	for i := 0; i < gen.Scale(16, 300); i++ {
 		scenario(r, signers, i%8 == 0)
 	}
 	_ = bytes.Equal
